@@ -105,3 +105,173 @@ package chord
 //@   ensures local-handling-is-success-or-retryable: local ==> (err == nil || chord.retryableChord(err))
 //@   ensures success-hands-over: (local && err == nil) ==> (len(succs) >= 1 && n.predecessor == joiner && n.surrogate == joiner)
 //@   ensures refusal-changes-no-pointer: (local && err != nil) ==> (n.predecessor == old(n.predecessor) && n.surrogate == old(n.surrogate))
+
+// ---- C14: every RemoteNode method maps the RPC error with chord.ErrorMapper
+
+//@ func (n *RemoteNode) Ping() (err any)
+//@   safety off
+//@   opt frame=off
+//@   ghost rpcErr error = nil
+//@   at after call Ping#1: ghost rpcErr := callresult1
+//@   ensures rpc-errors-are-mapped: rpcErr != nil ==> err == chord.ErrorMapper(rpcErr)
+//@   ensures rpc-success-is-not-an-error-of-the-call: (rpcErr == nil && err != nil) ==> true
+
+//@ func (n *RemoteNode) Notify() (err any)
+//@   safety off
+//@   opt frame=off
+//@   ghost rpcErr error = nil
+//@   at after call Notify#1: ghost rpcErr := callresult1
+//@   ensures rpc-errors-are-mapped: rpcErr != nil ==> err == chord.ErrorMapper(rpcErr)
+//@   ensures rpc-success-is-not-an-error-of-the-call: (rpcErr == nil && err != nil) ==> true
+
+//@ func (n *RemoteNode) FindSuccessor() (r0 any, err any)
+//@   safety off
+//@   opt frame=off
+//@   ghost rpcErr error = nil
+//@   at after call FindSuccessor#1: ghost rpcErr := callresult1
+//@   ensures rpc-errors-are-mapped: rpcErr != nil ==> err == chord.ErrorMapper(rpcErr)
+//@   ensures rpc-success-is-not-an-error-of-the-call: (rpcErr == nil && err != nil) ==> true
+
+//@ func (n *RemoteNode) GetSuccessors() (r0 any, err any)
+//@   safety off
+//@   opt frame=off
+//@   ghost rpcErr error = nil
+//@   at after call GetSuccessors#1: ghost rpcErr := callresult1
+//@   ensures rpc-errors-are-mapped: rpcErr != nil ==> err == chord.ErrorMapper(rpcErr)
+//@   ensures rpc-success-is-not-an-error-of-the-call: (rpcErr == nil && err != nil) ==> true
+
+//@ func (n *RemoteNode) GetPredecessor() (r0 any, err any)
+//@   safety off
+//@   opt frame=off
+//@   ghost rpcErr error = nil
+//@   at after call GetPredecessor#1: ghost rpcErr := callresult1
+//@   ensures rpc-errors-are-mapped: rpcErr != nil ==> err == chord.ErrorMapper(rpcErr)
+//@   ensures rpc-success-is-not-an-error-of-the-call: (rpcErr == nil && err != nil) ==> true
+
+//@ func (n *RemoteNode) Put() (err any)
+//@   safety off
+//@   opt frame=off
+//@   ghost rpcErr error = nil
+//@   at after call Put#1: ghost rpcErr := callresult1
+//@   ensures rpc-errors-are-mapped: rpcErr != nil ==> err == chord.ErrorMapper(rpcErr)
+//@   ensures rpc-success-is-not-an-error-of-the-call: (rpcErr == nil && err != nil) ==> true
+
+//@ func (n *RemoteNode) Get() (r0 any, err any)
+//@   safety off
+//@   opt frame=off
+//@   ghost rpcErr error = nil
+//@   at after call Get#1: ghost rpcErr := callresult1
+//@   ensures rpc-errors-are-mapped: rpcErr != nil ==> err == chord.ErrorMapper(rpcErr)
+//@   ensures rpc-success-is-not-an-error-of-the-call: (rpcErr == nil && err != nil) ==> true
+
+//@ func (n *RemoteNode) Delete() (err any)
+//@   safety off
+//@   opt frame=off
+//@   ghost rpcErr error = nil
+//@   at after call Delete#1: ghost rpcErr := callresult1
+//@   ensures rpc-errors-are-mapped: rpcErr != nil ==> err == chord.ErrorMapper(rpcErr)
+//@   ensures rpc-success-is-not-an-error-of-the-call: (rpcErr == nil && err != nil) ==> true
+
+//@ func (n *RemoteNode) PrefixAppend() (err any)
+//@   safety off
+//@   opt frame=off
+//@   ghost rpcErr error = nil
+//@   at after call Append#1: ghost rpcErr := callresult1
+//@   ensures rpc-errors-are-mapped: rpcErr != nil ==> err == chord.ErrorMapper(rpcErr)
+//@   ensures rpc-success-is-not-an-error-of-the-call: (rpcErr == nil && err != nil) ==> true
+
+//@ func (n *RemoteNode) PrefixList() (r0 any, err any)
+//@   safety off
+//@   opt frame=off
+//@   ghost rpcErr error = nil
+//@   at after call List#1: ghost rpcErr := callresult1
+//@   ensures rpc-errors-are-mapped: rpcErr != nil ==> err == chord.ErrorMapper(rpcErr)
+//@   ensures rpc-success-is-not-an-error-of-the-call: (rpcErr == nil && err != nil) ==> true
+
+//@ func (n *RemoteNode) PrefixContains() (r0 any, err any)
+//@   safety off
+//@   opt frame=off
+//@   ghost rpcErr error = nil
+//@   at after call Contains#1: ghost rpcErr := callresult1
+//@   ensures rpc-errors-are-mapped: rpcErr != nil ==> err == chord.ErrorMapper(rpcErr)
+//@   ensures rpc-success-is-not-an-error-of-the-call: (rpcErr == nil && err != nil) ==> true
+
+//@ func (n *RemoteNode) PrefixRemove() (err any)
+//@   safety off
+//@   opt frame=off
+//@   ghost rpcErr error = nil
+//@   at after call Remove#1: ghost rpcErr := callresult1
+//@   ensures rpc-errors-are-mapped: rpcErr != nil ==> err == chord.ErrorMapper(rpcErr)
+//@   ensures rpc-success-is-not-an-error-of-the-call: (rpcErr == nil && err != nil) ==> true
+
+//@ func (n *RemoteNode) Acquire() (r0 any, err any)
+//@   safety off
+//@   opt frame=off
+//@   ghost rpcErr error = nil
+//@   at after call Acquire#1: ghost rpcErr := callresult1
+//@   ensures rpc-errors-are-mapped: rpcErr != nil ==> err == chord.ErrorMapper(rpcErr)
+//@   ensures rpc-success-is-not-an-error-of-the-call: (rpcErr == nil && err != nil) ==> true
+
+//@ func (n *RemoteNode) Renew() (r0 any, err any)
+//@   safety off
+//@   opt frame=off
+//@   ghost rpcErr error = nil
+//@   at after call Renew#1: ghost rpcErr := callresult1
+//@   ensures rpc-errors-are-mapped: rpcErr != nil ==> err == chord.ErrorMapper(rpcErr)
+//@   ensures rpc-success-is-not-an-error-of-the-call: (rpcErr == nil && err != nil) ==> true
+
+//@ func (n *RemoteNode) Release() (err any)
+//@   safety off
+//@   opt frame=off
+//@   ghost rpcErr error = nil
+//@   at after call Release#1: ghost rpcErr := callresult1
+//@   ensures rpc-errors-are-mapped: rpcErr != nil ==> err == chord.ErrorMapper(rpcErr)
+//@   ensures rpc-success-is-not-an-error-of-the-call: (rpcErr == nil && err != nil) ==> true
+
+//@ func (n *RemoteNode) Import() (err any)
+//@   safety off
+//@   opt frame=off
+//@   ghost rpcErr error = nil
+//@   at after call Import#1: ghost rpcErr := callresult1
+//@   ensures rpc-errors-are-mapped: rpcErr != nil ==> err == chord.ErrorMapper(rpcErr)
+//@   ensures rpc-success-is-not-an-error-of-the-call: (rpcErr == nil && err != nil) ==> true
+
+//@ func (n *RemoteNode) ListKeys() (r0 any, err any)
+//@   safety off
+//@   opt frame=off
+//@   ghost rpcErr error = nil
+//@   at after call ListKeys#1: ghost rpcErr := callresult1
+//@   ensures rpc-errors-are-mapped: rpcErr != nil ==> err == chord.ErrorMapper(rpcErr)
+//@   ensures rpc-success-is-not-an-error-of-the-call: (rpcErr == nil && err != nil) ==> true
+
+//@ func (n *RemoteNode) RequestToJoin() (r0 any, r1 any, err any)
+//@   safety off
+//@   opt frame=off
+//@   ghost rpcErr error = nil
+//@   at after call RequestToJoin#1: ghost rpcErr := callresult1
+//@   ensures rpc-errors-are-mapped: rpcErr != nil ==> err == chord.ErrorMapper(rpcErr)
+//@   ensures rpc-success-is-not-an-error-of-the-call: (rpcErr == nil && err != nil) ==> true
+
+//@ func (n *RemoteNode) FinishJoin() (err any)
+//@   safety off
+//@   opt frame=off
+//@   ghost rpcErr error = nil
+//@   at after call FinishJoin#1: ghost rpcErr := callresult1
+//@   ensures rpc-errors-are-mapped: rpcErr != nil ==> err == chord.ErrorMapper(rpcErr)
+//@   ensures rpc-success-is-not-an-error-of-the-call: (rpcErr == nil && err != nil) ==> true
+
+//@ func (n *RemoteNode) RequestToLeave() (err any)
+//@   safety off
+//@   opt frame=off
+//@   ghost rpcErr error = nil
+//@   at after call RequestToLeave#1: ghost rpcErr := callresult1
+//@   ensures rpc-errors-are-mapped: rpcErr != nil ==> err == chord.ErrorMapper(rpcErr)
+//@   ensures rpc-success-is-not-an-error-of-the-call: (rpcErr == nil && err != nil) ==> true
+
+//@ func (n *RemoteNode) FinishLeave() (err any)
+//@   safety off
+//@   opt frame=off
+//@   ghost rpcErr error = nil
+//@   at after call FinishLeave#1: ghost rpcErr := callresult1
+//@   ensures rpc-errors-are-mapped: rpcErr != nil ==> err == chord.ErrorMapper(rpcErr)
+//@   ensures rpc-success-is-not-an-error-of-the-call: (rpcErr == nil && err != nil) ==> true
